@@ -244,7 +244,8 @@ def loop_rules(rep, u, vals):
     DIS = vals["TPDATA_F_DISABLED"]
     def and_const(cval):
         return lambda x, ps: x.get("k") == "bin" and x["op"] == "&" and cval in (const_val(x["x"]), const_val(x["y"]))
-    r_mpt.check_guard(rep, fn, "TPDATA_F_DISABLED", and_const(DIS), (0, DIS), (0,), targets=[cb], target_desc="callback dispatch")
+    r_mpt.check_guard(rep, fn, "TPDATA_F_DISABLED", and_const(DIS), (0, DIS), (0,), targets=[cb], target_desc="callback dispatch",
+                      stable=True)
 
     def flag_then_store(inst, flagval, flagkeypart, store_pred, desc):
         """when (flag & X) is set, every path to the callback passes a store satisfying store_pred"""
